@@ -243,7 +243,13 @@ def handle_path_command(args: argparse.Namespace) -> None:  # noqa: PLR0912
     if args.query is not None:
         query = args.query
     else:
-        query = args.path_file.read().strip()
+        try:
+            query = args.path_file.read().strip()
+        except UnicodeDecodeError as err:
+            if args.debug:
+                raise
+            sys.stderr.write(f"json path file decode error: {err}\n")
+            sys.exit(1)
 
     try:
         path = jsonpath.JSONPathEnvironment(
@@ -273,7 +279,8 @@ def handle_path_command(args: argparse.Namespace) -> None:  # noqa: PLR0912
 
     try:
         matches = path.findall(args.file)
-    except (json.JSONDecodeError, UnicodeDecodeError) as err:
+    except ValueError as err:
+        # Malformed or undecodable JSON, or a number with more digits than int() accepts.
         if args.debug:
             raise
         sys.stderr.write(f"target document json decode error: {err}\n")
@@ -301,7 +308,13 @@ def handle_pointer_command(args: argparse.Namespace) -> None:
         pointer = args.pointer
     else:
         # TODO: is a property with a trailing newline OK?
-        pointer = args.pointer_file.read().strip()
+        try:
+            pointer = args.pointer_file.read().strip()
+        except UnicodeDecodeError as err:
+            if args.debug:
+                raise
+            sys.stderr.write(f"pointer file decode error: {err}\n")
+            sys.exit(1)
 
     try:
         match = jsonpath.pointer.resolve(
@@ -310,7 +323,8 @@ def handle_pointer_command(args: argparse.Namespace) -> None:
             unicode_escape=not args.no_unicode_escape,
             uri_decode=args.uri_decode,
         )
-    except (json.JSONDecodeError, UnicodeDecodeError) as err:
+    except ValueError as err:
+        # Malformed or undecodable JSON, or a number with more digits than int() accepts.
         if args.debug:
             raise
         sys.stderr.write(f"target document json decode error: {err}\n")
@@ -329,7 +343,8 @@ def handle_patch_command(args: argparse.Namespace) -> None:
     """Handle the `patch` sub command."""
     try:
         patch = json.load(args.patch)
-    except (json.JSONDecodeError, UnicodeDecodeError) as err:
+    except ValueError as err:
+        # Malformed or undecodable JSON, or a number with more digits than int() accepts.
         if args.debug:
             raise
         sys.stderr.write(f"patch document json decode error: {err}\n")
@@ -348,7 +363,8 @@ def handle_patch_command(args: argparse.Namespace) -> None:
             unicode_escape=not args.no_unicode_escape,
             uri_decode=args.uri_decode,
         )
-    except (json.JSONDecodeError, UnicodeDecodeError) as err:
+    except ValueError as err:
+        # Malformed or undecodable JSON, or a number with more digits than int() accepts.
         if args.debug:
             raise
         sys.stderr.write(f"target document json decode error: {err}\n")
